@@ -2,6 +2,7 @@
 //   SETD n s vbits pbits                      -> "<bytes>"                (AddNByte[U]Double, default UndefVal)
 //   GETD n s pbits defbits idx datalen data   -> "<resultbits> <idx'>"    (GetNByte[U]Double)
 //   RTD  n s vbits pbits                      -> "<bytes> <resultbits>"   (set, then get with def=NA)
+//   SETB n s vbits pbits (free function SetBufNByte[U]Double) / RTU n s vbits pbits ubits (AddNByte[U]Double with UndefVal = u, read back with default u)
 //   SETF vbits32 / GETF defbits32 idx datalen data (raw float field)
 //   SETI kind value / GETI kind def idx datalen data   kind in b, i2, u2, i3, u3, u4, u8
 #include "hcommon.h"
@@ -48,6 +49,28 @@ int main() {
     else if (t[0] == "SETD" && t.size() == 5) {
       addd(m, atoi(t[1].c_str()), t[2] == "s", d_of(t[3]), d_of(t[4]));
       printf("%s\n", hex(m.Data, m.DataLen).c_str());
+    } else if (t[0] == "SETB" && t.size() == 5) {          // the free function SetBufNByte[U]Double on an exact-size heap buffer
+      int n = atoi(t[1].c_str()); bool s = t[2] == "s"; double v = d_of(t[3]), p = d_of(t[4]);
+      unsigned char *b = (unsigned char *)malloc(n); int idx = 0;
+      switch (n) {
+        case 1: if (s) SetBuf1ByteDouble(v, p, idx, b); else SetBuf1ByteUDouble(v, p, idx, b); break;
+        case 2: if (s) SetBuf2ByteDouble(v, p, idx, b); else SetBuf2ByteUDouble(v, p, idx, b); break;
+        case 3: if (s) SetBuf3ByteDouble(v, p, idx, b); else SetBuf3ByteUDouble(v, p, idx, b); break;
+        case 4: if (s) SetBuf4ByteDouble(v, p, idx, b); else SetBuf4ByteUDouble(v, p, idx, b); break;
+        case 8: SetBuf8ByteDouble(v, p, idx, b); break;
+      }
+      printf("%s\n", idx == n ? hex(b, n).c_str() : "badindex"); free(b);
+    } else if (t[0] == "RTU" && t.size() == 6) {            // AddNByte[U]Double with a caller-chosen UndefVal, read back with that value as default
+      int n = atoi(t[1].c_str()); bool s = t[2] == "s"; double v = d_of(t[3]), p = d_of(t[4]), u = d_of(t[5]);
+      switch (n) {
+        case 1: if (s) m.Add1ByteDouble(v, p, u); else m.Add1ByteUDouble(v, p, u); break;
+        case 2: if (s) m.Add2ByteDouble(v, p, u); else m.Add2ByteUDouble(v, p, u); break;
+        case 3: if (s) m.Add3ByteDouble(v, p, u); else m.Add3ByteUDouble(v, p, u); break;
+        case 4: if (s) m.Add4ByteDouble(v, p, u); else m.Add4ByteUDouble(v, p, u); break;
+        case 8: m.Add8ByteDouble(v, p, u); break;
+      }
+      int idx = 0; double r = getd(m, n, s, p, idx, u);
+      printf("%s %s\n", hex(m.Data, m.DataLen).c_str(), bits(r).c_str());
     } else if (t[0] == "RTD" && t.size() == 5) {
       int n = atoi(t[1].c_str()); bool s = t[2] == "s"; double p = d_of(t[4]);
       addd(m, n, s, d_of(t[3]), p);
